@@ -830,6 +830,10 @@ class BasicFunctionCall(AbstractBasicExpression):
     def basic09_text(self, indent_level: int) -> str:
         return f"{self._func}{self._args.basic09_text(indent_level)}"
 
+    def visit(self, visitor: "BasicConstructVisitor") -> None:
+        visitor.visit_exp(self)
+        self._args.visit(visitor)
+
 
 class BasicDataStatement(AbstractBasicStatement):
     def __init__(self, exp_list):
